@@ -254,3 +254,7 @@ if __name__ == '__main__' and len(sys.argv) > 1 and sys.argv[1] == 'deepext':
 if __name__ == '__main__' and len(sys.argv) > 1 and sys.argv[1] == 'desc128':
     # 128-byte group descriptors (bytes 64..127 are covered by the descriptor checksum and otherwise unused), metadata_csum; three groups
     build('desc128', ['-t', 'ext4', '-O', '^has_journal,metadata_csum,64bit,^resize_inode', '-E', 'desc_size=128', '-I', '256', '-N', '256', '-g', '512'], 1536, post=[D])
+
+if __name__ == '__main__' and len(sys.argv) > 1 and sys.argv[1] == 'hurd':
+    # creator OS Hurd: the osd2 part of the inode has another meaning (h_i_frag, h_i_fsize, h_i_mode_high, h_i_author) and e2fsck has Hurd-only checks
+    build('hurd', ['-t', 'ext2', '-o', 'hurd', '-O', '^resize_inode', '-N', '256'] + ['-g', '256'], 1536, post=[D])
